@@ -198,6 +198,9 @@ func (e *Env) eval(ex ast.Expr) (Val, bool) {
 		if !ok {
 			return a, false
 		}
+		if a.K == KScalar && ((n.Op == token.LAND && a.T.S == "false") || (n.Op == token.LOR && a.T.S == "true")) {
+			return a, true // short circuit, as in Go
+		}
 		b, ok := e.eval(n.Y)
 		if !ok {
 			return b, false
@@ -490,6 +493,10 @@ func (e *Env) evalCall(n *ast.CallExpr) (Val, bool) {
 			if !ok {
 				return a, false
 			}
+			if id.Name == "implies" && a.K == KScalar && a.T.S == "false" {
+				// short circuit: the consequent may mention events that do not exist on this path
+				return scalar(tTrue, boolT), true
+			}
 			b, ok := e.eval(n.Args[1])
 			if !ok {
 				return b, false
@@ -646,6 +653,49 @@ func (e *Env) evalCall(n *ast.CallExpr) (Val, bool) {
 				return e.fail("as: target must be a pointer type")
 			}
 			return Val{K: KPtr, Typ: t, P: &Ptr{Kind: PObj, Base: a.Fs[1].T, Elem: pt.Elem()}}, true
+		case "has":
+			// has(m, k): key k is present in map m
+			if len(n.Args) != 2 {
+				return e.fail("has needs (map, key)")
+			}
+			m, ok := e.eval(n.Args[0])
+			if !ok {
+				return m, false
+			}
+			k, ok := e.eval(n.Args[1])
+			if !ok {
+				return k, false
+			}
+			mt, isMap := under(m.Typ).(*types.Map)
+			if m.Typ == nil || !isMap {
+				return e.fail("has on a non-map value: %s", types.ExprString(n.Args[0]))
+			}
+			_, present := x.mapGet(e.st, e.view(), m.T, mt, x.keyTerm(k))
+			return scalar(present, boolT), true
+		case "exclusive", "shared":
+			// exclusive(l): on this path the last lock operation on mutex l is Lock (shared: RLock or Lock)
+			if len(n.Args) != 1 {
+				return e.fail("%s needs a mutex", id.Name)
+			}
+			l, ok := e.eval(n.Args[0])
+			if !ok {
+				return l, false
+			}
+			return scalar(boolLit(e.lockHeld(l, id.Name == "shared", 0)), boolT), true
+		case "heldsince":
+			// heldsince(l, callee): l has been held exclusively, without interruption, since before the last call of callee
+			if len(n.Args) != 2 {
+				return e.fail("heldsince needs (mutex, callee)")
+			}
+			l, ok := e.eval(n.Args[0])
+			if !ok {
+				return l, false
+			}
+			evs := e.matchEvents("call", n.Args[1])
+			if len(evs) == 0 {
+				return scalar(tFalse, boolT), true
+			}
+			return scalar(boolLit(e.lockHeld(l, false, evs[len(evs)-1].Seq)), boolT), true
 		case "called", "went", "deferred":
 			kind := map[string]string{"called": "call", "went": "go", "deferred": "defer"}[id.Name]
 			return scalar(boolLit(len(e.matchEvents(kind, n.Args[0])) > 0), boolT), true
@@ -696,6 +746,31 @@ func (e *Env) evalCall(n *ast.CallExpr) (Val, bool) {
 		return e.pureMethod(recv, sel.Sel.Name, args, types.ExprString(n))
 	}
 	return e.fail("unsupported call %s", types.ExprString(n))
+}
+
+// lockHeld scans the events of the path backwards for operations on mutex l. It answers whether the last
+// operation is an acquisition (exclusive unless shared is allowed) and, if before > 0, whether that
+// acquisition happened before event number `before` (no release in between).
+func (e *Env) lockHeld(l Val, shared bool, before int) bool {
+	lt := e.x.ptrTerm(l).S
+	for i := len(e.st.events) - 1; i >= 0; i-- {
+		ev := e.st.events[i]
+		if ev.Kind != "call" || len(ev.Args) == 0 || !strings.HasPrefix(ev.Callee, "(*sync.") {
+			continue
+		}
+		if e.x.ptrTerm(ev.Args[0]).S != lt {
+			continue
+		}
+		switch {
+		case strings.HasSuffix(ev.Callee, ".Lock"):
+			return before == 0 || ev.Seq < before
+		case strings.HasSuffix(ev.Callee, ".RLock"):
+			return shared && (before == 0 || ev.Seq < before)
+		case strings.HasSuffix(ev.Callee, ".Unlock"), strings.HasSuffix(ev.Callee, ".RUnlock"):
+			return false
+		}
+	}
+	return false
 }
 
 // pureMethod: x.M(args) for methods declared pure (uninterpreted function of receiver and arguments).
